@@ -116,6 +116,16 @@ class Ctx:
     def func(self, relpath, dotted):
         f = self.p.func(relpath, dotted)
         self.note("%s:%s" % (relpath, dotted))
+        # helpers added since the review are spliced into their caller (sa/expand.py): rules look at one function
+        from . import sym
+        import copy as _copy
+        node = sym.expanded(self, f)
+        if node is not f.node:
+            v = _copy.copy(f)
+            v.node = node
+            v.original = f
+            self.note("expanded helpers in %s" % f.qualname)
+            return v
         return f
 
     def where(self, fi, node=None):
